@@ -201,6 +201,14 @@ def growBufferCap (size cap n : Nat) : Nat :=
   let c0 := if cap < 8160 then 8160 else cap + 32
   growLoop 64 c0 (size + n) - 32
 
+/-- `CodeWriter::ensure_space(n)` -> `grow_buffer` -> `realloc/malloc`: (oracle, capacity, success) -/
+def ensureSpace (o : Oracle) (size cap n : Nat) : Oracle × Nat × Bool :=
+  if cap - size < n then
+    match req o with
+    | (true, o1) => (o1, cap, false)
+    | (false, o1) => (o1, growBufferCap size cap n, true)
+  else (o, cap, true)
+
 /-- `CodeHolder::new_reloc_entry(type)` -/
 def newReloc (o : Oracle) (s : St) (type : Nat) : Oracle × St × Err :=
   match reserveAdd o s.v.relocs.length s.c.relCap 1 8 with
@@ -213,6 +221,16 @@ def newReloc (o : Oracle) (s : St) (type : Nat) : Oracle × St × Err :=
       (o2, { v := { s.v with relocs := s.v.relocs ++ [(type, false)] }, c := s1.c,
              corrupt := s.corrupt || s.v.relocs.length ≥ c1 }, .ok)
 
+/-- `embed_label_delta` after `new_reloc_entry` answered `r` -/
+def exprTail (s : St) (sc : Section) (cap1 : Nat) (r : Oracle × St × Err) : Oracle × St × Err :=
+  if r.2.2 ≠ .ok then r else
+  match req r.1 with             -- `new_oneshot<Expression>()`
+  | (true, o3) => (o3, { r.2.1 with v := s.v }, .oom)      -- `_relocations.pop()`
+  | (false, o3) =>
+    (o3, { r.2.1 with v := { s.v with relocs := s.v.relocs ++ [(1, true)],
+                                      sections := s.v.sections.set 0 { sc with size := sc.size + 4 } },
+                      corrupt := r.2.1.corrupt || sc.size + 4 > cap1 }, .ok)
+
 /-- the expression branch of `embed_label_delta(label, base, 4)` in `.text` (REPAIRED, fixes/C15-4.patch: when the
 `Expression` cannot be allocated the relocation entry just created is popped again): `ensure_space(4)` (heap),
 `new_reloc_entry` (arena x2), `new_oneshot<Expression>` (arena), then the payload is set and 4 zero bytes are written -/
@@ -220,27 +238,11 @@ def exprReloc (o : Oracle) (s : St) : Oracle × St × Err :=
   match s.v.sections[0]? with
   | none => (o, s, .invalidSection)
   | some sc =>
-    let cap := s.c.bufCap.getD 0 0
-    -- `CodeWriter::ensure_space`
-    let r : Oracle × Nat × Bool :=
-      if cap - sc.size < 4 then
-        match req o with
-        | (true, o1) => (o1, cap, false)
-        | (false, o1) => (o1, growBufferCap sc.size cap 4, true)
-      else (o, cap, true)
-    match r with
+    match ensureSpace o sc.size (s.c.bufCap.getD 0 0) 4 with      -- `CodeWriter::ensure_space`
     | (o1, _, false) => (o1, s, .oom)
     | (o1, cap1, true) =>
       let s1 := { s with c := { s.c with bufCap := s.c.bufCap.set 0 cap1 } }
-      match newReloc o1 s1 1 with
-      | (o2, s2, .ok) =>
-        match req o2 with             -- `new_oneshot<Expression>()`
-        | (true, o3) => (o3, { s2 with v := s.v }, .oom)      -- `_relocations.pop()`
-        | (false, o3) =>
-          (o3, { s2 with v := { s.v with relocs := s.v.relocs ++ [(1, true)],
-                                          sections := s.v.sections.set 0 { sc with size := sc.size + 4 } },
-                         corrupt := s2.corrupt || sc.size + 4 > cap1 }, .ok)
-      | r => r
+      exprTail s sc cap1 (newReloc o1 s1 1)
 
 /-- `CodeHolder::new_fixup` (`ArenaPool::alloc`: a pooled record is reused without a request) -/
 def newFixup (o : Oracle) (s : St) : Oracle × St × Err :=
@@ -254,41 +256,45 @@ def freeFixup (o : Oracle) (s : St) : Oracle × St × Err :=
   if s.v.fixups = 0 then (o, s, .invalidState)
   else (o, { s with v := { s.v with fixups := s.v.fixups - 1 }, c := { s.c with pool := s.c.pool + 1 } }, .ok)
 
-/-- `CodeHolder::add_address_to_address_table(address)` (64-bit target: register size 8) -/
-def addAddr (o : Oracle) (s : St) (a : Nat) : Oracle × St × Err :=
-  if s.v.addrs.contains a then (o, s, .ok) else
-  -- `ensure_address_table_section()`: the error of `new_section` is dropped, a null section means out of memory
-  let r : Oracle × St × Option Nat :=
-    match s.v.addrTab with
-    | some id => (o, s, some id)
-    | none =>
-      match newSection o s [46, 97, 100, 100, 114, 116, 97, 98] 8 2147483647 with
-      | (o1, s1, .ok) => (o1, { s1 with v := { s1.v with addrTab := some s.v.sections.length } }, some s.v.sections.length)
-      | (o1, s1, _) => (o1, s1, none)
-  match r with
-  | (o1, s1, none) => (o1, s1, .oom)
-  | (o1, s1, some id) =>
-    match req o1 with               -- `new_oneshot<AddressTableEntry>(address)`
-    | (true, o2) => (o2, s1, .oom)
+/-- `ensure_address_table_section()` after `new_section` answered `r`: its error is dropped, the section pointer is set
+only on success -/
+def ensureTail (id : Nat) (r : Oracle × St × Err) : Oracle × St × Option Nat :=
+  if r.2.2 = .ok then (r.1, { r.2.1 with v := { r.2.1.v with addrTab := some id } }, some id)
+  else (r.1, r.2.1, none)
+
+/-- `CodeHolder::ensure_address_table_section()` (64-bit target: alignment = register size 8) -/
+def ensureAddrTab (o : Oracle) (s : St) : Oracle × St × Option Nat :=
+  match s.v.addrTab with
+  | some id => (o, s, some id)
+  | none => ensureTail s.v.sections.length (newSection o s [46, 97, 100, 100, 114, 116, 97, 98] 8 2147483647)
+
+/-- `add_address_to_address_table` after `ensure_address_table_section()` answered `r` (null = out of memory) -/
+def addAddrTail (a : Nat) (r : Oracle × St × Option Nat) : Oracle × St × Err :=
+  match r.2.2 with
+  | none => (r.1, r.2.1, .oom)
+  | some id =>
+    match req r.1 with               -- `new_oneshot<AddressTableEntry>(address)`
+    | (true, o2) => (o2, r.2.1, .oom)
     | (false, o2) =>
+      let s1 := r.2.1
       (o2, { s1 with v := { s1.v with addrs := s1.v.addrs ++ [a],
                                       sections := s1.v.sections.modify id fun sec => { sec with vsize := sec.vsize + 8 } } }, .ok)
+
+/-- `CodeHolder::add_address_to_address_table(address)` -/
+def addAddr (o : Oracle) (s : St) (a : Nat) : Oracle × St × Err :=
+  if s.v.addrs.contains a then (o, s, .ok) else addAddrTail a (ensureAddrTab o s)
 
 /-- `embed(data, n)` into section `sec`: `CodeWriter::ensure_space` -> `grow_buffer` -> `realloc/malloc`, then the bytes -/
 def emit (o : Oracle) (s : St) (sec n : Nat) : Oracle × St × Err :=
   match s.v.sections[sec]? with
   | none => (o, s, .invalidSection)
   | some sc =>
-    let cap := s.c.bufCap.getD sec 0
-    let put (o' : Oracle) (cap' : Nat) : Oracle × St × Err :=
-      (o', { s with v := { s.v with sections := s.v.sections.set sec { sc with size := sc.size + n } },
+    match ensureSpace o sc.size (s.c.bufCap.getD sec 0) n with
+    | (o1, _, false) => (o1, s, .oom)
+    | (o1, cap', true) =>
+      (o1, { s with v := { s.v with sections := s.v.sections.set sec { sc with size := sc.size + n } },
                     c := { s.c with bufCap := s.c.bufCap.set sec cap' },
                     corrupt := s.corrupt || sc.size + n > cap' }, .ok)
-    if cap - sc.size < n then
-      match req o with
-      | (true, o1) => (o1, s, .oom)
-      | (false, o1) => put o1 (growBufferCap sc.size cap n)
-    else put o cap
 
 /-- `ArenaVector<uint32_t>::append(arena, x)` -/
 def vappend (o : Oracle) (s : St) (x : Nat) : Oracle × St × Err :=
@@ -304,18 +310,22 @@ def vreserve (o : Oracle) (s : St) (n : Nat) : Oracle × St × Err :=
   | (o1, _, false) => (o1, s, .oom)
   | (o1, c1, true) => (o1, { s with c := { s.c with vecCap := c1 } }, .ok)
 
-/-- `String::append_chars(c, n)` (`prepare(kAppend, n)`: `malloc` iff the new size exceeds the capacity) -/
+/-- `String::prepare(kAppend, n)`: `malloc` iff the new size exceeds the capacity: (oracle, capacity, success) -/
+def strReserve (o : Oracle) (size cap n : Nat) : Oracle × Nat × Bool :=
+  if size + n > cap then
+    match req o with
+    | (true, o1) => (o1, cap, false)
+    | (false, o1) => (o1, Str.growCapacity (n + 1) (size + n + 1) - 1, true)
+  else (o, cap, true)
+
+/-- `String::append_chars(c, n)` -/
 def sappend (o : Oracle) (s : St) (n ch : Nat) : Oracle × St × Err :=
   if n = 0 then (o, s, .ok) else
-  let newSize := s.v.str.length + n
-  let put (o' : Oracle) (cap' : Nat) : Oracle × St × Err :=
-    (o', { s with v := { s.v with str := s.v.str ++ List.replicate n ch }, c := { s.c with strCap := cap' },
-                  corrupt := s.corrupt || newSize > cap' }, .ok)
-  if newSize > s.c.strCap then
-    match req o with
-    | (true, o1) => (o1, s, .oom)
-    | (false, o1) => put o1 (Str.growCapacity (n + 1) (newSize + 1) - 1)
-  else put o s.c.strCap
+  match strReserve o s.v.str.length s.c.strCap n with
+  | (o1, _, false) => (o1, s, .oom)
+  | (o1, cap', true) =>
+    (o1, { s with v := { s.v with str := s.v.str ++ List.replicate n ch }, c := { s.c with strCap := cap' },
+                  corrupt := s.corrupt || s.v.str.length + n > cap' }, .ok)
 
 inductive Op where
   | newSection (name : List Nat) (align : Nat) (order : Int)
